@@ -141,6 +141,9 @@ func (r *Run) Fatal(format string, a ...any) {
 	r.fatal = append(r.fatal, fmt.Sprintf(format, a...))
 }
 
+// FatalCount is the number of fatal conditions recorded so far.
+func (r *Run) FatalCount() int { return len(r.fatal) }
+
 func (r *Run) loadFindings() FindingsFile {
 	var ff FindingsFile
 	b, err := os.ReadFile(filepath.Join(r.VerifDir, "known_findings.json"))
